@@ -465,7 +465,8 @@ void _mi_page_retire(mi_page_t* page) mi_attr_noexcept {
   mi_assert_expensive(_mi_page_is_valid(page));
   mi_assert_internal(mi_page_all_free(page));
 
-  mi_page_set_has_aligned(page, false);
+  // note: `has_aligned` is only reset in `_mi_page_free`: while the page is kept, a (wrong) second free of an
+  // over-aligned pointer must still be un-aligned to its block, or an interior pointer ends up in the free list.
 
   // don't retire too often..
   // (or we end up retiring and re-allocating most of the time)
